@@ -263,6 +263,20 @@ pub struct Small {
 }
 pub struct C08Small;
 
+fn has_empty_key_idiom(n: &Node) -> bool {
+    fn nullish(n: &Node) -> bool {
+        matches!(&n.kind, Kind::Scalar { text, style: Style::Plain } if text.is_empty() || text == "~" || text.eq_ignore_ascii_case("null"))
+    }
+    match &n.kind {
+        Kind::Map(es) => es.iter().any(|(k, v)| {
+            let idiom = matches!(&k.kind, Kind::Map(inner) if inner.is_empty() || (inner.len() == 1 && nullish(&inner[0].0)));
+            idiom || has_empty_key_idiom(k) || has_empty_key_idiom(v)
+        }),
+        Kind::Seq(items) => items.iter().any(has_empty_key_idiom),
+        _ => false,
+    }
+}
+
 impl Prop for C08Small {
     type Case = Small;
     fn check(&self, c: &Small) -> Verdict {
@@ -280,6 +294,12 @@ impl Prop for C08Small {
             Some(r) => r,
             None => return v, // unknown / self-referential alias: C02's business
         };
+        if has_empty_key_idiom(&t) {
+            // a mapping key that is a one-entry mapping with a null-like own key is read as the "explicit empty
+            // key" idiom (key null, value = the inner value): what is delivered for it is unspecified (DESIGN.md §6b)
+            v.rejected = true;
+            return v;
+        }
         let dflt = Limits::default();
         let run = |l: &Limits, v: &mut Verdict| -> Option<Run> {
             v.execs += 1;
